@@ -18,6 +18,7 @@ pub fn run(args: &[String]) -> i32 {
     let n: usize = args.get(2).and_then(|s| s.parse().ok()).unwrap_or(100);
     let r = match what {
         "c05" => c05(seed, n),
+        #[cfg(feature = "small")]
         "c07" => crate::monitors::c07::aux_round_trips(seed, n),
         "c10" => c10(seed, n),
         _ => Err(format!("unknown aux workload {:?}", what)),
